@@ -18,6 +18,9 @@ pub struct Scn {
     pub guest: GuestSpec,
     pub events: Vec<Event>,
     pub cfg: SysCfg,
+    /// host fault: the emulator's console cannot be written (every write fails) - the `stdout:` messages are owed all the same
+    #[serde(default)]
+    pub console_full: bool,
 }
 
 #[derive(Clone, Debug, PartialEq)]
@@ -396,7 +399,7 @@ impl Property for C14 {
         };
         let est = super::c10::estimate_iters(&guest);
         let cfg = SysCfg { wait_start: false, clock: gen_clock_model(rng), clock_seed: rng.next_u64(), step_cap: est * 4 + 10_000, print_msgs: rng.chance(1, 8), print_opcode: false };
-        Scn { guest, events, cfg }
+        Scn { guest, events, cfg, console_full: rng.chance(1, 10) }
     }
 
     fn execute(scn: &Scn, stats: &mut Stats) -> Verdict {
@@ -492,7 +495,13 @@ impl Property for C14 {
         // requests for vectors that have no handler installed at that moment would derail the guest:
         // the generator only requests installed vectors; while shrinking such scenarios are invalid
         let _ = crate::harness::take_console();
+        if scn.console_full {
+            crate::harness::console_fault(true);
+        }
         let (run, obs) = run_sys(&g, &scn.cfg, &scn.events, obs, false, |_| {});
+        if scn.console_full {
+            crate::harness::console_fault(false);
+        }
         let got_console = crate::harness::take_console();
         if let Outcome::Panic(p) = &run.outcome {
             return Verdict::Fail(Failure::keyed("c14.panic", format!("{}:{}", p.file, p.msg), format!("panic at {}:{}: {}", p.file, p.line, p.msg)));
@@ -539,7 +548,9 @@ impl Property for C14 {
                 format!("emission {} differs: observed {}, program order requires {} ({} observed, {} expected)", i, show(observed.get(i)), show(expect.get(i)), observed.len(), expect.len()),
             ));
         }
-        if scn.cfg.print_msgs {
+        if scn.console_full {
+            bump(stats, "event.console_cannot_be_written");
+        } else if scn.cfg.print_msgs {
             bump(stats, "event.print_messages_option_on");
         } else if got_console != console {
             let i = got_console.iter().zip(console.iter()).position(|(a, b)| a != b).unwrap_or(got_console.len().min(console.len()));
@@ -577,6 +588,9 @@ impl Property for C14 {
 
     fn shrink(scn: &Scn) -> Vec<Scn> {
         let mut out = Vec::new();
+        if scn.console_full {
+            out.push(Scn { console_full: false, ..scn.clone() });
+        }
         for ev in remove_chunks(&scn.events) {
             out.push(Scn { events: ev, ..scn.clone() });
         }
